@@ -148,6 +148,7 @@ func binFor(root, build string) string {
 }
 
 type childOutcome struct {
+	cold     bool // a cold-start probe: its counters are kept apart from the (exactly sized) main workload
 	build    string
 	shard    int
 	err      error
@@ -234,7 +235,7 @@ func Supervise(p *Prop, tier string) int {
 				stalledFor := 0.0
 				deadlocks := 0
 				for attempt := 0; attempt <= maxRestarts && stalledFor < maxStallSeconds; attempt++ {
-					oc := runChildProc(bin, p.ID, tier, seed, s, nshards, b, work, time.Duration(wd)*time.Second, attempt, from)
+					oc := runChildProc(bin, p.ID, tier, seed, s, nshards, b, work, time.Duration(wd)*time.Second, attempt, from, 0)
 					res[s] = append(res[s], oc)
 					var sr ShardResult
 					js, err := os.ReadFile(oc.base + ".json")
@@ -255,6 +256,34 @@ func Supervise(p *Prop, tier string) int {
 		wg.Wait()
 		for _, rs := range res {
 			outcomes = append(outcomes, rs...)
+		}
+		// cold-start probes (properties judged on several goroutines): many short-lived processes, each
+		// releasing its judging goroutines together on a different handful of cases, so that whatever the
+		// library initialises lazily on first use is raced at the one moment it is vulnerable
+		if (p.Parallel > 1 || p.ColdStart) && b == "default" {
+			nCold := 16
+			if p.ColdProbes > 0 {
+				nCold = p.ColdProbes
+			}
+			if tier == "thorough" {
+				nCold *= 10
+			}
+			cold := make([]childOutcome, nCold)
+			sem := make(chan struct{}, 16)
+			var cwg sync.WaitGroup
+			for k := 0; k < nCold; k++ {
+				cwg.Add(1)
+				go func(k int) {
+					defer cwg.Done()
+					sem <- struct{}{}
+					defer func() { <-sem }()
+					defer func() { cold[k].cold = true }()
+					cold[k] = runChildProc(bin, p.ID, tier, seed, k%nshards, nshards, b, work, time.Duration(wd)*time.Second, 1000+k, int64(k/nshards)*int64(3*p.Parallel+1), int64(2*p.Parallel+2))
+				}(k)
+			}
+			cwg.Wait()
+			outcomes = append(outcomes, cold...)
+			r.Extra["cold_start_probes_"+b] = nCold
 		}
 	}
 
@@ -300,16 +329,22 @@ func Supervise(p *Prop, tier string) int {
 			}
 			continue
 		}
-		r.Shards = append(r.Shards, &sr)
+		if !oc.cold {
+			r.Shards = append(r.Shards, &sr)
+		}
 		r.Evaluations += sr.Evaluations
 		r.Nontrivial += sr.Nontrivial
 		r.ViolTotal += sr.ViolTotal
 		r.FpCapped = r.FpCapped || sr.FpCapped
+		pre := ""
+		if oc.cold {
+			pre = "cold-start probe: "
+		}
 		for k, v := range sr.ByClass {
-			r.ByClass[k] += v
+			r.ByClass[pre+k] += v
 		}
 		for k, v := range sr.Counters {
-			r.Counters[k] += v
+			r.Counters[pre+k] += v
 		}
 		r.Violations = append(r.Violations, sr.Violations...)
 		for _, he := range sr.HarnessErrors {
@@ -460,7 +495,7 @@ const (
 	maxStallSeconds = 450
 )
 
-func runChildProc(bin, prop, tier string, seed int64, shard, nshards int, build, work string, watchdog time.Duration, attempt int, from int64) childOutcome {
+func runChildProc(bin, prop, tier string, seed int64, shard, nshards int, build, work string, watchdog time.Duration, attempt int, from, limit int64) childOutcome {
 	base := filepath.Join(work, fmt.Sprintf("%s-%d", build, shard))
 	if attempt > 0 {
 		base += fmt.Sprintf("-r%d", attempt)
@@ -475,7 +510,7 @@ func runChildProc(bin, prop, tier string, seed int64, shard, nshards int, build,
 	cmd := exec.Command(bin, "child", prop, tier, strconv.FormatInt(seed, 10), strconv.Itoa(shard), strconv.Itoa(nshards), build, work)
 	cmd.Stdout = out
 	cmd.Stderr = out
-	cmd.Env = append(os.Environ(), "GOTRACEBACK=all", fmt.Sprintf("VERIF_ATTEMPT=%d", attempt), fmt.Sprintf("VERIF_FROM=%d", from))
+	cmd.Env = append(os.Environ(), "GOTRACEBACK=all", fmt.Sprintf("VERIF_ATTEMPT=%d", attempt), fmt.Sprintf("VERIF_FROM=%d", from), fmt.Sprintf("VERIF_LIMIT=%d", limit))
 	if strings.HasSuffix(build, cpuOffSuffix) {
 		cmd.Env = append(cmd.Env, "GODEBUG=cpu.all=off")
 	}
